@@ -29,10 +29,47 @@ let compile_cases () =
        | Accepted r -> print_string ("OK " ^ hex_of_bytes r ^ "\n")
        | Rejected d -> print_string ("ERR " ^ hex_of_bytes d ^ "\n")
        | Panicked -> print_string "PANIC\n"
-       | OutOfFuel -> print_string "FUEL\n")
+       | NoFuel -> print_string "FUEL\n")
     | [] -> ())
+
+let split_commas s = if s = "-" then [] else String.split_on_char ',' s
+let parse_sched s =
+  List.map (fun t ->
+    let n = int_of_string (String.sub t 1 (String.length t - 1)) in
+    match t.[0] with
+    | 'a' -> Accept (nat_of_int n)
+    | 'i' -> Interrupted
+    | _ -> Fail (n_of_int n)) (List.filter (fun t -> t <> "i" || true) (split_commas s)
+                                |> List.map (fun t -> if t = "i" then "i0" else t))
+let res_str = function
+  | Done -> "ok"
+  | Failed WriteZero -> "wz"
+  | Failed (Io e) -> "io" ^ string_of_int (int_of_n e)
+  | OutOfFuel -> "FUEL"
+let io_cases () =
+  each_line (fun l ->
+    match fields l with
+    | [w; ps; sc] ->
+      let ps = List.map bytes_of_hex (split_commas ps) in
+      let sink = { sched = parse_sched sc; log = [] } in
+      let buf_of v = match to_buffer v with Some b -> b | None -> failwith "to_buffer" in
+      let (v, buf) = match w with
+        | "D" -> (VDisplay ps, None)
+        | "H" -> (VRaw ps, None)
+        | "B" -> let b = buf_of (VDisplay ps) in (VBuffer b, Some b)
+        | "HB" -> let b = buf_of (VRaw ps) in (VBuffer b, Some b)
+        | _ -> let b = buf_of (VBuffer (buf_of (VDisplay ps))) in (VBuffer b, Some b) in
+      let (s', r) = to_html v sink in
+      (match buf with
+       | None -> print_string (hex_of_bytes s'.log ^ " " ^ res_str r ^ "\n")
+       | Some b ->
+         let f x = if x then "1" else "0" in
+         print_string (hex_of_bytes s'.log ^ " " ^ res_str r ^ " " ^ hex_of_bytes b ^ " "
+                       ^ f (buffer_eq b b) ^ f (buffer_eq b (b @ [n_of_int 120])) ^ f (buffer_eq b b) ^ "\n"))
+    | _ -> print_string "BADCASE\n")
 
 let () =
   match Sys.argv.(1) with
   | "compile" -> compile_cases ()
+  | "io" -> io_cases ()
   | _ -> prerr_endline "usage: driver compile|..."; exit 2
